@@ -8,12 +8,14 @@ Open Scope list_scope.
 Section FltInd.
   Variable P : flt -> Prop.
   Hypothesis HField : forall n q, P (FField n q).
+  Hypothesis HFieldBad : forall n q, P (FFieldBad n q).
   Hypothesis HOr : forall fs, Forall P fs -> P (FOr fs).
   Hypothesis HAnd : forall fs, Forall P fs -> P (FAnd fs).
   Hypothesis HNot : forall f, P f -> P (FNot f).
   Fixpoint flt_ind' (f : flt) : P f :=
     match f with
     | FField n q => HField n q
+    | FFieldBad n q => HFieldBad n q
     | FOr fs => HOr fs ((fix go (l : list flt) : Forall P l :=
                            match l with [] => Forall_nil P | x :: r => Forall_cons x (flt_ind' x) (go r) end) fs)
     | FAnd fs => HAnd fs ((fix go (l : list flt) : Forall P l :=
@@ -82,6 +84,8 @@ Section Correct.
           -- intros [Hm Hc]. split; [|auto]. eapply field_matches_live; eassumption.
           -- tauto.
         * split; [constructor|]. intros id. simpl. split; [intros [] | intros [_ [? _]]; discriminate].
+    - (* Field with an unconvertible key: no value *)
+      simpl. split; [constructor|]. intros id. split; [intros [] | intros [_ [? _]]; discriminate].
     - (* Or *)
       rewrite Forall_forall in H. simpl eval.
       assert (Hloop : forall l rt, (forall g, In g l -> In g fs) -> NoDup rt ->
@@ -168,7 +172,7 @@ Section Correct.
     intros Hlb.
     assert (Hfull : forall g, isort (eval hs lb c g None 0 desc) = full c g)
       by (intros g; apply (filter_by_field_unbounded lb g desc)).
-    destruct f as [n q|fs|fs|g].
+    destruct f as [n q|n q|fs|fs|g].
     - (* Field *)
       simpl eval. destruct (String.eqb n ID_KEY) eqn:En.
       + destruct (by_id_limit ids q limit desc Hids) as [E|E]; fold ids; rewrite E.
@@ -177,6 +181,7 @@ Section Correct.
           f_equal. unfold full. simpl denote. rewrite En. reflexivity.
       + assert (lb = false) as -> by (destruct Hlb as [?|Hb]; [assumption | simpl in Hb; rewrite En in Hb; discriminate]).
         left. pose proof (Hfull (FField n q)) as Hf. simpl eval in Hf. rewrite En in Hf. exact Hf.
+    - left. exact (Hfull (FFieldBad n q)).
     - left. exact (Hfull (FOr fs)).
     - left. exact (Hfull (FAnd fs)).
     - (* Not *)
@@ -321,6 +326,50 @@ Section Correct.
       rewrite take_end_pos by lia. rewrite firstn_firstn. f_equal. lia.
   Qed.
 End Correct.
+
+(* ------------------------------------------------------------------ errors *)
+(* A filter that names only existing indexes (or _id) and whose keys all convert is evaluated without
+   error, under any candidate set and direction; so an evaluation error always points at an unknown
+   index or an unconvertible key somewhere in the tree. *)
+Lemma eval_err_ok hs lb c f :
+  filter_ok c f = true -> forall cand desc, eval_err hs lb c f cand desc = None.
+Proof.
+  induction f using flt_ind'; intros Hok cand desc.
+  - simpl in *. destruct (String.eqb n ID_KEY); [reflexivity|]. simpl in Hok.
+    destruct (find_index (c_idx c) n); [reflexivity | discriminate].
+  - discriminate.
+  - simpl in Hok. rewrite forallb_forall in Hok. rewrite Forall_forall in H. simpl eval_err.
+    assert (Hl : forall l, (forall g, In g l -> In g fs) ->
+      (fix loop (fs0 : list flt) : option qerr :=
+         match fs0 with
+         | [] => None
+         | g :: r => match eval_err hs lb c g cand desc with Some e => Some e | None => loop r end
+         end) l = None).
+    { induction l as [|g l IHl]; intros Hsub; [reflexivity|].
+      rewrite (H g (Hsub _ (or_introl eq_refl)) (Hok g (Hsub _ (or_introl eq_refl)))).
+      apply IHl. intros g' Hg'. apply Hsub. now right. }
+    apply Hl. auto.
+  - simpl in Hok. rewrite forallb_forall in Hok. rewrite Forall_forall in H. simpl eval_err.
+    destruct fs as [|f0 rest]; [reflexivity|].
+    rewrite (H f0 (or_introl eq_refl) (Hok f0 (or_introl eq_refl))).
+    assert (Hl : forall l rt, (forall g, In g l -> In g (f0 :: rest)) ->
+      (fix loop (rest0 : list flt) (rt0 : list Z) : option qerr :=
+         match rest0 with
+         | [] => None
+         | g :: r =>
+             match eval_err hs lb c g (Some rt0) desc with
+             | Some e => Some e
+             | None => if is_nil (eval hs lb c g (Some rt0) 0 desc) then None
+                       else loop r (eval hs lb c g (Some rt0) 0 desc)
+             end
+         end) l rt = None).
+    { induction l as [|g l IHl]; intros rt Hsub; [reflexivity|].
+      rewrite (H g (Hsub _ (or_introl eq_refl)) (Hok g (Hsub _ (or_introl eq_refl)))).
+      destruct (is_nil (eval hs lb c g (Some rt) 0 desc)); [reflexivity|].
+      apply IHl. intros g' Hg'. apply Hsub. now right. }
+    apply Hl. intros g Hg. now right.
+  - simpl in *. now apply IHf.
+Qed.
 
 (* ------------------------------------------------------------------ the runner's hash order qualifies *)
 Lemma sort_dedup_is_hash_order :
